@@ -543,7 +543,14 @@ pub fn drive_sweep(s: &mut Session, rng: &mut Rng, thorough: bool, shard: u32) {
 fn random_scale_edit(s: &mut Session, rng: &mut Rng) {
     let n = rng.below(13) as usize;
     let ns: Vec<u8> = (0..n)
-        .map(|_| if rng.chance(1, 8) { 12 + rng.below(244) as u8 } else { rng.below(12) as u8 })
+        .map(|_| {
+            if rng.chance(1, 8) {
+                // note numbers beyond B act as B: the first few of them, the sign bit, the last, any
+                if rng.chance(1, 2) { *rng.pick(&[12u8, 13, 15, 16, 23, 24, 127, 128, 255]) } else { 12 + rng.below(244) as u8 }
+            } else {
+                rng.below(12) as u8
+            }
+        })
         .collect();
     if rng.chance(1, 2) {
         s.allow(&ns)
@@ -710,6 +717,18 @@ pub fn drive_shortcuts(s: &mut Session, rng: &mut Rng, thorough: bool) {
         }
         s.convert(v);
         s.convert(v);
+    }
+    // (c2) out-of-range note numbers in scale edits (they act as B), then the emptied-scale guard
+    for &n in &[12u8, 13, 16, 127, 128, 255] {
+        s.start();
+        s.forbid(&[n]);
+        s.convert((rng.below(10) as f64 + 11.0 * semi + 0.01) as f32);
+        s.allow(&[n]);
+        s.forbid(&[0, 1, 2, 3, 4, 5, 6, 7, 8, 9, 10, 11]);
+        s.convert((rng.unit() * 10.0) as f32);
+        s.allow(&[4]);
+        s.forbid(&[n, 11]);
+        s.convert((rng.unit() * 10.0) as f32);
     }
     // (d) extreme and non-finite values as the very first input of a quantizer, with and without C
     for path in 0..4u32 {
